@@ -21,7 +21,7 @@ pub struct World {
     pub locale: u8,      // 0 unset, 1 C, 2 en_US.UTF-8, 3 tr_TR.UTF-8, 4 nonsense
     pub rust_backtrace: u8, // 0 unset, 1 "0", 2 "1", 3 "full"
     pub stdin: u8,       // 0 /dev/null, 1 closed, 2 pipe with pending data, 3 regular file
-    pub stdout: u8,      // 0 file, 1 pipe, 2 /dev/null, 3 closed, 4 socket
+    pub stdout: u8,      // 0 file, 1 pipe, 2 /dev/null, 3 closed, 4 socket, 5 pty (raw), 6 pipe without reader (fault worlds only)
     pub stderr: u8,
     pub merged: bool,    // 2>&1 on one open file description (stdout's sink)
     pub decoys: bool,
@@ -73,8 +73,8 @@ impl World {
             "locale" => self.locale = 1 + rng.below(4) as u8,
             "rust_backtrace" => self.rust_backtrace = 1 + rng.below(3) as u8,
             "stdin" => self.stdin = 1 + rng.below(3) as u8,
-            "stdout" => self.stdout = 1 + rng.below(4) as u8,
-            "stderr" => self.stderr = 1 + rng.below(4) as u8,
+            "stdout" => self.stdout = 1 + rng.below(5) as u8,
+            "stderr" => self.stderr = 1 + rng.below(5) as u8,
             "merged" => self.merged = true,
             "decoys" => self.decoys = true,
             _ => {}
